@@ -103,7 +103,7 @@ Definition all_ok : verdict := {| v_class := true; v_args := true; v_help := tru
 Definition is_err (r : option sres) : bool := match r with Some SErr => true | _ => false end.
 Definition is_unknown (r : option sres) : bool := match r with None => true | _ => false end.
 
-Definition check_case (int_size : N) (flags : list flagdef) (vec : list token)
+Definition check_first (int_size : N) (flags : list flagdef) (vec : list token)
     (cls : N) (detail : list N) (args : list token) (help : bool) (fields : list (list N)) : verdict :=
   match arg_parse (table_of flags) vec with
   | Panic => {| v_class := false; v_args := false; v_help := false; v_fields := false; v_detail := false; v_lenient := false |}
@@ -133,6 +133,20 @@ Definition check_case (int_size : N) (flags : list flagdef) (vec : list token)
                v_detail := true; v_lenient := lenient |}
       end
   end.
+
+(** [callno] = 0: the first Parse on a fresh FlagSet (also through FromCommandLine: Parse(os.Args[1:])).
+    [callno] > 0: a later Parse on the same FlagSet — refused by the code under verification ("must be called
+    once"), fields untouched.  Should an implementation accept it (return nil), the grammar still binds it:
+    the assignments must be those of THIS vector ("never a silently different assignment"); agreement with that is
+    reported as drift from the model only. *)
+Definition check_case (int_size : N) (flags : list flagdef) (callno : N) (unchanged : bool) (vec : list token)
+    (cls : N) (detail : list N) (args : list token) (help : bool) (fields : list (list N)) : verdict :=
+  if callno =? 0 then check_first int_size flags vec cls detail args help fields
+  else if cls =? cls_nil then
+    let v := check_first int_size flags vec cls detail args help fields in
+    {| v_class := v_class v; v_args := v_args v; v_help := v_help v; v_fields := v_fields v; v_detail := false; v_lenient := v_lenient v |}
+  else
+    {| v_class := is_error cls; v_args := true; v_help := true; v_fields := unchanged; v_detail := true; v_lenient := false |}.
 
 Definition verdict_ok (v : verdict) : bool := v_class v && v_args v && v_help v && v_fields v.
 Definition verdict_clean (v : verdict) : bool := verdict_ok v && v_detail v.
